@@ -572,9 +572,12 @@ def _failures(tname, v, tail, memo, path='$'):
     diff_fails = []
 
     def children_fail():
+        """failures of the covered sub-values, parsed on their own, that can explain a failure of this level (a raise,
+        shifted fields, a wrong tail): everything except the two kinds that cannot disturb the surrounding parser"""
         out = []
         for p, cn, cv in typed_children(t, v):
-            out.extend(_failures(cn, cv, DEFAULT_TAIL, memo, f'{path}.{p}'))
+            out.extend(f for f in _failures(cn, cv, DEFAULT_TAIL, memo, f'{path}.{p}')
+                       if not f.signature.endswith(('/missing-attribute', '/unsigned-read-signed')))
         return out
 
     if not ok:
@@ -612,12 +615,16 @@ def _failures(tname, v, tail, memo, path='$'):
                 break
         if sub:
             diff_fails.extend(sub)
-        else:
-            diff_fails.append(Fail(f'{pre}{_sigpath(p)}/{kind}',
-                                   f'{tname} {p}: parsed {_short(g_at)}, encoded {_short(e_at)}'))
-        if kind == 'value-differs' and not sub:
-            shifted = True                            # later differences and the tail may be consequences: stop here
+            continue
+        if kind == 'value-differs':
+            # possibly a shifted read: an inline sub-value before it that consumes the wrong amount explains it; in
+            # any case later differences and the tail may be consequences - stop here
+            sib = children_fail()
+            diff_fails.extend(sib or [Fail(f'{pre}{_sigpath(p)}/{kind}',
+                                           f'{tname} {p}: parsed {_short(g_at)}, encoded {_short(e_at)}')])
+            shifted = True
             break
+        diff_fails.append(Fail(f'{pre}{_sigpath(p)}/{kind}', f'{tname} {p}: parsed {_short(g_at)}, encoded {_short(e_at)}'))
     # (3) the tail
     tail_fail = None
     if not shifted and TYPES[tname][2]:
@@ -636,8 +643,7 @@ def _failures(tname, v, tail, memo, path='$'):
             elif rbits != tb or rrefs != want:
                 tail_fail = Fail(f'{where}/tail-differs', det)
     if tail_fail is not None:
-        sub = children_fail()
-        own = sub if sub else [tail_fail]
+        own = children_fail() or [tail_fail]
     out = diff_fails + [f for f in own if f.signature not in {x.signature for x in diff_fails}]
     memo[path] = out
     return out
@@ -712,9 +718,9 @@ def mk_case(ch, tname, t, budget):
 
 
 # weights of the random sub-check: the composite types carry most of the others inside
-WEIGHTED = (['Transaction'] * 8 + ['TransactionDescr'] * 6 + ['InMsg'] * 6 + ['OutMsg'] * 6 + ['MsgEnvelope'] * 4
+WEIGHTED = (['Transaction'] * 8 + ['TransactionDescr'] * 6 + ['InMsg'] * 7 + ['OutMsg'] * 9 + ['MsgEnvelope'] * 4
             + ['Account'] * 4 + ['ShardAccount'] * 3 + ['AccountBlock'] * 3 + ['TrComputePhase'] * 2 + ['TrActionPhase'] * 2
-            + ['TrBouncePhase'] * 2 + ['TrStoragePhase', 'TrCreditPhase', 'AccStatusChange', 'ComputeSkipReason',
+            + ['TrBouncePhase'] * 2 + ['TrStoragePhase', 'TrCreditPhase', 'TrCreditPhase', 'AccStatusChange', 'ComputeSkipReason',
                                       'SplitMergeInfo', 'IntermediateAddress', 'IntermediateAddress', 'MsgMetadata',
                                       'ImportFees', 'StorageUsedShort', 'StorageUsed', 'StorageInfo', 'AccountStorage',
                                       'AccountState', 'AccountState', 'AccountStatus', 'StateInit', 'HashUpdate',
@@ -783,7 +789,7 @@ def _alts(t):
 
 
 def enum_cases(tier):
-    reps = 2 if tier == 'quick' else 10
+    reps = 3 if tier == 'quick' else 30
     for tname in TYPES:
         t = getattr(S, tname)
         for alt in _alts(t):
@@ -844,5 +850,5 @@ SUBCHECKS = [
         note='every covered type x constructor x combination of optional fields (values hash-chosen), Transaction x 7 '
              'descriptions x in_msg, msg_export_tr x envelope kind x 9 InMsg kinds, all-min / all-max values with empty, '
              'maximal and small tails'),
-    Sub('tx-random', check_case, strategy=strat, classify=classify, nontrivial=nontrivial, n=(1200, 30000), shards=(16, 48)),
+    Sub('tx-random', check_case, strategy=strat, classify=classify, nontrivial=nontrivial, n=(2000, 120000), shards=(16, 48)),
 ]
